@@ -12,7 +12,7 @@
  * script (stdin), one command per line:
  *   cfg <cid> key=value ...            define front-end configuration <cid> (FE_OPTIONS parameters)
  *   info <cid>                         print "info <cid> <size> <shift> <dim> <swap>" on stdout
- *   sig <sid> speech <len> <seed> <path> | sig <sid> noise <len> <seed> | sig <sid> ramp <len> <seed>
+ *   sig <sid> speech <len> <seed> <path> | sig <sid> noise <len> <seed> | sig <sid> clipped <len> <seed> | sig <sid> ramp <len> <seed>
  *   run <eid> <cid> <sid> <i|f> <doc|drain> <N> <endmax> <warm> <k> n1 m1 ... nk mk
  *                                      m = -1: call with a NULL output buffer (count only)
  *                                      warm = 1: the (fresh) front end first processes another short
@@ -433,6 +433,21 @@ do_sig(char *line)
             x ^= x >> 17;
             x ^= x << 5;
             s->pcm[i] = (int16)(x >> 11);
+        }
+    } else if (strcmp(kind, "clipped") == 0) {
+        /* overdriven and hard-clipped: long runs at BOTH rails, including the int16 minimum -32768
+         * (float -1.0), which a symmetric clamp or an off-by-one scale treats differently */
+        uint32 x = 88172645u ^ (uint32)seed * 2246822519u;
+        s->kind = 1;
+        if (x == 0)
+            x = 1;
+        for (i = 0; i < len; ++i) {
+            long v;
+            x ^= x << 13;
+            x ^= x >> 17;
+            x ^= x << 5;
+            v = (long)((int16)(x >> 11)) * 3 + (long)(20000.0 * sin((i + seed) * 0.01));
+            s->pcm[i] = (int16)(v > 32767 ? 32767 : v < -32768 ? -32768 : v);
         }
     } else if (strcmp(kind, "ramp") == 0) {
         s->kind = 2;
